@@ -382,7 +382,8 @@ func (n *pgNode) redeclares(scope []string) bool {
 	return false
 }
 
-var pgLazyStages = map[string]bool{"map": true, "accept": true, "compact": true, "combine": true, "number": true, "iir": true}
+var pgLazyStages = map[string]bool{"map": true, "accept": true, "compact": true, "combine": true, "number": true, "iir": true,
+	"combine3": true, "combineN": true, "iirCombine": true, "cross": true, "merge": true}
 
 // hasLazyStage: a method call that creates a lazy list stage with a callback
 func (n *pgNode) hasLazyStage() bool {
@@ -1530,6 +1531,106 @@ func (g *pgProgGen) totalInt(e *pgGenv, param string, size int) *pgNode {
 	return pgNOp(g.oneOf([]string{"+", "-", "*"}), g.totalInt(e, param, p[0]), g.totalInt(e, param, p[1]))
 }
 
+// int-valued methods of int lists: min, max, single, minMax(key).min/.max/.minItem/.maxItem
+func (g *pgProgGen) listToInt(e *pgGenv, size int) *pgNode {
+	p := g.split(size-2, 2)
+	l := g.expr(pgTList(pgTInt), e, p[0], false)
+	switch g.pick(8) {
+	case 0:
+		return pgNMethod("method", l, "min")
+	case 1:
+		return pgNMethod("method", l, "max")
+	case 2:
+		return pgNMethod("method", l, "single")
+	case 3, 4, 5, 6:
+		// a list stage consumed at once; the mapReduce fingerprint depends on every item and on the order
+		if !g.illTyped {
+			st := g.listStage(l, e, p[1])
+			switch g.pick(5) {
+			case 0:
+				return pgNMethod("method", st, "size")
+			case 1:
+				return pgNMethod("method", st, "sum")
+			case 2:
+				return pgNMethod("method", st, g.oneOf([]string{"first", "last"}))
+			}
+			ps := g.freshNames(e, 2)
+			return pgNMethod("method", st, "mapReduce", pgNInt(0),
+				pgNClo(ps, pgNOp("+", pgNOp("*", pgNId(ps[0]), pgNInt(3)), pgNId(ps[1]))))
+		}
+	}
+	ps := g.freshNames(e, 1)
+	be := e.enter(ps, []*pgTy{pgTInt})
+	mm := pgNMethod("method", l, "minMax", pgNClo(ps, g.totalInt(be, ps[0], p[1])))
+	return pgNMember(mm, g.oneOf([]string{"min", "max", "minItem", "maxItem"}))
+}
+
+// list stages with callbacks of two or more parameters (or a second list) on an int list l; the
+// callbacks are total arithmetic / comparisons on ints, as for map and accept
+func (g *pgProgGen) listStage(l *pgNode, e *pgGenv, size int) *pgNode {
+	if g.chance(0.5) {
+		// a receiver with enough items (and repeated values) for the stage to show what it does
+		k := 3 + g.pick(4)
+		items := make([]*pgNode, k)
+		for i := range items {
+			items[i] = pgNInt(int64(g.pick(4)))
+		}
+		if g.chance(0.5) {
+			l = pgNOp("+", pgNList(items...), l)
+		} else {
+			l = pgNList(items...)
+		}
+	}
+	ints := func(k int) ([]string, *pgGenv) {
+		ps := g.freshNames(e, k)
+		ts := make([]*pgTy, k)
+		for i := range ts {
+			ts[i] = pgTInt
+		}
+		return ps, e.enter(ps, ts)
+	}
+	other := func() *pgNode {
+		k := g.pick(4)
+		items := make([]*pgNode, k)
+		for i := range items {
+			items[i] = pgNInt(int64(g.pick(10)))
+		}
+		return pgNList(items...)
+	}
+	switch g.pick(9) {
+	case 0:
+		ps, be := ints(2)
+		return pgNMethod("method", l, "number", pgNClo(ps, g.totalInt(be, ps[1], size)))
+	case 1:
+		ps, be := ints(2)
+		return pgNMethod("method", l, "compact", pgNClo(ps, pgNOp(g.cmpOp(), g.totalInt(be, ps[0], size), pgNId(ps[1]))))
+	case 2:
+		ps, be := ints(2)
+		return pgNMethod("method", l, "combine", pgNClo(ps, g.totalInt(be, ps[1], size)))
+	case 3:
+		ps, be := ints(3)
+		return pgNMethod("method", l, "combine3", pgNClo(ps, g.totalInt(be, ps[2], size)))
+	case 4:
+		ps := g.freshNames(e, 1)
+		w := pgNId(ps[0])
+		body := pgNMethod("method", w, g.oneOf([]string{"sum", "size", "first", "last"}))
+		return pgNMethod("method", l, "combineN", pgNInt(int64(1+g.pick(3))), pgNClo(ps, body))
+	case 5:
+		ps1, be1 := ints(1)
+		ps, be := ints(2)
+		return pgNMethod("method", l, "iir", pgNClo(ps1, g.totalInt(be1, ps1[0], size/2)), pgNClo(ps, g.totalInt(be, ps[1], size/2)))
+	case 6:
+		ps1, be1 := ints(1)
+		ps, be := ints(3)
+		return pgNMethod("method", l, "iirCombine", pgNClo(ps1, g.totalInt(be1, ps1[0], size/2)), pgNClo(ps, g.totalInt(be, ps[2], size/2)))
+	case 7:
+		ps, be := ints(2)
+		return pgNMethod("method", l, "cross", other(), pgNClo(ps, g.totalInt(be, ps[1], size)))
+	}
+	ps, _ := ints(2)
+	return pgNMethod("method", l, "merge", other(), pgNClo(ps, pgNOp(g.oneOf([]string{"<", "<=", ">"}), pgNId(ps[0]), pgNId(ps[1]))))
+}
+
 func (g *pgProgGen) cmpOp() string { return g.oneOf([]string{"<", ">", "<=", ">=", "=", "!="}) }
 
 // constructs specific to the type
@@ -1539,6 +1640,9 @@ func (g *pgProgGen) typed(t *pgTy, e *pgGenv, size int, allowLet bool) *pgNode {
 	}
 	switch t.K {
 	case "int":
+		if !g.illTyped && size >= 4 && g.chance(0.07) {
+			return g.listToInt(e, size)
+		}
 		c := g.pick(100)
 		switch {
 		case c < 40:
@@ -1578,12 +1682,14 @@ func (g *pgProgGen) typed(t *pgTy, e *pgGenv, size int, allowLet bool) *pgNode {
 				init = g.binder(pgTInt, e, p[2])
 			}
 			return pgNMethod("method", l, "mapReduce", init, cb)
-		case c < 97:
+		case c < 94:
 			p := g.split(size-2, 2)
 			l := g.expr(pgTList(pgTInt), e, p[0], false)
 			ps := g.freshNames(e, 1)
 			cb := pgNClo(ps, g.expr(pgTBool, e.enter(ps, []*pgTy{pgTInt}), p[1], true))
 			return pgNMethod("method", l, "indexWhere", cb)
+		case c < 99:
+			return g.listToInt(e, size)
 		default:
 			return pgNMethod("method", g.expr(pgTMap(pgField{"a", pgTInt}, pgField{"b", pgTInt}), e, size-1, false), "size")
 		}
@@ -1610,8 +1716,11 @@ func (g *pgProgGen) typed(t *pgTy, e *pgGenv, size int, allowLet bool) *pgNode {
 			return pgNUn("-", g.expr(pgTFloat, e, size-1, false))
 		case c < 80:
 			return g.staticCall(t, e, []string{"abs", "sign", "sqr"}, g.expr(pgTFloat, e, size-1, true))
-		case c < 90:
+		case c < 88:
 			return g.staticCall(t, e, []string{"float"}, g.expr(pgTInt, e, size-1, true))
+		case c < 92:
+			// mean of an int list: exact whenever the size is a power of two
+			return pgNMethod("method", g.expr(pgTList(pgTInt), e, size-1, false), "mean")
 		default:
 			return g.staticCall(t, e, []string{"min", "max"}, g.args([]*pgTy{pgTFloat, pgTFloat}, e, size-1, 1)...)
 		}
@@ -1703,6 +1812,9 @@ func (g *pgProgGen) typed(t *pgTy, e *pgGenv, size int, allowLet bool) *pgNode {
 				l := g.expr(pgTList(pgTInt), e, p[0], false)
 				ps := g.freshNames(e, 1)
 				be := e.enter(ps, []*pgTy{pgTInt})
+				if g.chance(0.65) {
+					return g.listStage(l, e, p[1])
+				}
 				if g.chance(0.6) {
 					return pgNMethod("method", l, "map", pgNClo(ps, g.totalInt(be, ps[0], p[1])))
 				}
